@@ -52,7 +52,9 @@ def select(cases, cfg, limit, seed, only=None, priority=()):
     if limit and len(sel) > limit:
         rng = random.Random(seed)
         first = [c for c in sel if c[0] in priority]
-        sel = [c for c in sel if c[0] not in priority]
+        # the order/* metamorphs repeat items of the other families in another order: they are probed when tie A disagrees
+        # on them (priority), and otherwise leave the behaviour budget to the families they were derived from
+        sel = [c for c in sel if c[0] not in priority and not c[0].startswith('order/')]
         limit = max(0, limit - len(first))
         # keep a spread over streams: round-robin over id prefixes
         groups = {}
